@@ -88,7 +88,9 @@ def run(C, R):
         R.configs.append(cfg)
         from common import constructor_state
         for _st, _flag in CHANNEL_STATES.items():
-            constructor_state(R, C.engine(cfg), C.facts(cfg), _st, {_flag: ('const', 0)}, 'C11.R0')
+            constructor_state(R, C.engine(cfg), C.facts(cfg), _st, {_flag: ('const', 0)}, 'C11.R0',
+                              also_valid=lambda d, _flag=_flag: 'starts closed (as after new() + close / send)'
+                              if d.get(_flag) == ('const', 1) else None)
         from common import wrapper_discipline
         R.floor('C11.W wrapper-paths[%s]' % cfg, wrapper_discipline(C, R, cfg, list(CHANNEL_STATES), 'C11.W'), 2)
         # ---------------- R1 monotone
@@ -504,6 +506,9 @@ def run(C, R):
                                % (side[:-1], other[:-1], shared), None)
                 else:
                     R.ok('C11.R5', '%s|%s may leave the close to %s, which always closes' % (shared, side, other))
+        # R5c: every counted handle is counted when it is made
+        from common import counted_handle_sites
+        R.floor('C11.R5 counted-handle construction paths[%s]' % cfg, counted_handle_sites(R, E, F, CG, 'C11.R5'), 8)
         # R7: the variant predicates of the status / error enums say what the variant is
         n7 = 0
         for enum, preds in (('channel::channel_future::CloseStatus',
